@@ -58,7 +58,46 @@ fn c01_one(b: &[u8]) -> Vec<String> {
     if let Ok(h) = hickory_proto::op::Header::read(&mut d) { let _ = hickory_proto::op::MessageRequest::read(&mut d, h); }
     let mut d = BinDecoder::new(b);
     let _ = Record::<RData>::read(&mut d);
+    // the input read as TYPE(2) + RDATA, handed to the RDATA dispatcher directly
+    if b.len() >= 2 {
+        let rt = hickory_proto::rr::RecordType::from(u16::from_be_bytes([b[0], b[1]]));
+        let _ = RData::read(BinDecoder::new(&b[2..]), rt);
+    }
     out
+}
+/// valid RDATA templates (TYPE + RDATA) and their systematic mutations: every truncation, and every single octet
+/// replaced by each of a few boundary values
+fn c01_rdata_mutations() -> Vec<Vec<u8>> {
+    let t: Vec<Vec<u8>> = vec![
+        // OPT: ECS option (code 8): family 1, source prefix 24, scope 0, 3 address octets; then NSID, DAU
+        unhex("0029000800070001180001020300030002abcd00050003080d0f"),
+        // OPT: ECS family 2, source prefix 56
+        unhex("00290008000b0002380020010db8000000"),
+        // TSIG: algorithm name, time(6) fudge(2) macsize(2)=4 mac oid(2) error(2) otherlen(2)=0
+        unhex("00fa0b686d61632d7368613235360000000000012c012c0004deadbeef123400000000"),
+        // SVCB: priority 1, target ".", mandatory=[alpn], alpn=["h2"], port, ipv4hint, ech, ipv6hint
+        unhex("0040000100000000020001000100030268320003000201bb000400040102030400050002abcd0006001020010db8000000000000000000000001"),
+        // NSEC3: alg 1 flags 1 iter 12 saltlen 4 salt hashlen 20 hash bitmap
+        unhex("00320101000c04aabbccdd14000102030405060708090a0b0c0d0e0f1011121300064000000002"),
+        // NSEC3PARAM, DNSKEY, DS, CDS, CDNSKEY, KEY
+        unhex("00330100000c04aabbccdd"), unhex("0030010103080301000100"), unhex("002b3039080201020304"), unhex("003b3039000201020304"), unhex("003c0101030001020304"), unhex("00190100030801020304"),
+        // RRSIG / SIG: type covered, alg, labels, ttl, expiration, inception, key tag, signer, signature
+        unhex("002e00010d0200000e100000ffff000000013039076578616d706c650001020304"),
+        // NSEC / CSYNC
+        unhex("002f01610000064000000002"), unhex("003e0000004200030004600000"),
+        // CAA, NAPTR, HINFO, TXT, SOA, MX, SRV, CERT, SSHFP, TLSA, A, AAAA, NULL, DLV/TA codes
+        unhex("0101000569737375656c657473656e63727970742e6f7267"), unhex("00230064000a0175074532552b7369700021215e2e2a24217369703a696e666f406578616d706c652e636f6d2100"),
+        unhex("000d03415243054c494e5558"), unhex("00100568656c6c6f05776f726c64"), unhex("0006026e7300026861000000000100000e10000002580001518000000e10"),
+        unhex("000f000a046d61696c00"), unhex("00210001000201bb0377777700"), unhex("002500010001080102030405"), unhex("002c01010102030405"), unhex("003403010101020304"),
+        unhex("000101020304"), unhex("001c20010db8000000000000000000000001"), unhex("000a0102"), unhex("80000102"), unhex("80010102"),
+    ];
+    let vals = [0x00u8, 0x01, 0x07, 0x3f, 0x40, 0x7f, 0x80, 0xc0, 0xf8, 0xf9, 0xff];
+    let mut all = Vec::new();
+    for tpl in &t {
+        for n in 2..=tpl.len() { all.push(tpl[..n].to_vec()); }
+        for i in 2..tpl.len() { for v in vals { if tpl[i] != v { let mut m = tpl.clone(); m[i] = v; all.push(m); } } }
+    }
+    all
 }
 fn c01_check(bytes: &[u8]) -> Result<(), String> {
     let b = bytes.to_vec();
@@ -113,6 +152,7 @@ fn c01_search(seed: u64) -> Option<(Vec<u8>, String)> {
             if k == len { break; }
         }
     }
+    all.extend(c01_rdata_mutations());
     // structured: 12-byte header (varied opcode/counts) followed by names built from labels/pointers, then records
     let mut r = Rng(seed.wrapping_mul(0x9E3779B97F4A7C15) | 1);
     for _ in 0..60000 {
